@@ -10,7 +10,7 @@ import ast
 import re
 
 from ..core import Rule, AnalysisError, C_LIB, norm
-from .. import cfront, clib, cfg as _cfg, pyfront, cfold, rx
+from .. import cfront, clib, cfg as _cfg, pyfront, cfold, rx, cbool
 
 LIB = C_LIB
 OBJ = clib.OBJ
@@ -50,54 +50,88 @@ def _canon_src(fn, arg, before):
 
 
 def written_attrs(fn):
-    """name -> (file type text, mem type text, source canon, node) from H5Acreate2/H5Awrite pairs in source order."""
-    calls = sorted(fn.calls(("H5Acreate2", "H5Awrite")), key=lambda c: c.begin)
+    """name -> (file type text, mem type text, source canon, node) from H5Acreate2/H5Awrite pairs in source order (made directly
+    or through a helper that forwards its parameters)."""
     out = {}
     pending = None
-    for c in calls:
-        if c.callee == "H5Acreate2":
-            pending = (c.args[1].strval(), re.sub(r"\s", "", c.args[2].nsrc), c)
+    for prim, args, site, helper in clib.prim_sites(fn, ("H5Acreate2", "H5Awrite")):
+        if prim == "H5Acreate2":
+            name = args[1].strval()
+            if name is None:
+                raise AnalysisError("%s: attribute name of H5Acreate2 at line %s is not a string literal" % (fn.name, site.line))
+            pending = (name, re.sub(r"\s", "", args[2].nsrc), site)
         elif pending is not None:
             name, ftype, cn = pending
-            out[name] = (ftype, re.sub(r"\s", "", c.args[1].nsrc), _canon_src(fn, c.args[2], c), cn)
+            out[name] = (ftype, re.sub(r"\s", "", args[1].nsrc), _canon_src(fn, args[2], site), cn)
             pending = None
     return out
 
 
+def _helper_rejects_missing(helper):
+    """In an attribute-reading helper: a failed H5Aopen returns non-zero before H5Aread."""
+    g = _cfg.build_c(helper)
+    opens = [n for n in g.nodes if n.ast is not None and n.ast.calls(("H5Aopen",))]
+    reads = [n.id for n in g.nodes if n.ast is not None and n.ast.calls(("H5Aread",))]
+    if len(opens) != 1 or not reads:
+        return False
+    conds = [n for n in g.nodes if n.kind == "cond" and n.ast is not None and n.ast.begin > opens[0].ast.begin]
+    if not conds:
+        return False
+    c = sorted(conds, key=lambda n: n.ast.begin)[0]
+    e = c.ast.strip()
+    if not (e.kind == "BinaryOperator" and e.opcode == "<" and e.children[1].intval() == 0):
+        return False
+    starts = [b for b, l in g.succ[c.id] if l == "T"]
+    reach = g.reach(starts)
+    rets = [x for x in g.nodes if x.kind == "return" and x.id in reach]
+    ok_rets = bool(rets) and all((x.ast.children[0].intval() or 0) != 0 for x in rets)
+    # success exit returns 0, so the caller's `if (helper(...))` is the missing test
+    fstarts = [b for b, l in g.succ[c.id] if l == "F"]
+    frets = [x for x in g.nodes if x.kind == "return" and x.id in g.reach(fstarts)]
+    zero = bool(frets) and all(x.ast.children and x.ast.children[0].intval() == 0 for x in frets)
+    return ok_rets and not any(r_ in reach for r_ in reads) and zero
+
+
 def compared_attrs(fn):
-    """name -> (mem type, compared canon, node, missing_ok, mismatch_ok) from H5Aopen/H5Aread/if(result != X) triples."""
+    """name -> (mem type, compared canon, node, missing_ok, mismatch_ok) from H5Aopen/H5Aread/if(result != X) triples
+    (primitives called directly or through a reading helper)."""
     g = _cfg.build_c(fn)
-    opens = sorted(fn.calls(("H5Aopen",)), key=lambda c: c.begin)
-    reads = sorted(fn.calls(("H5Aread",)), key=lambda c: c.begin)
+    sites = clib.prim_sites(fn, ("H5Aopen", "H5Aread"))
+    opens = [s_ for s_ in sites if s_[0] == "H5Aopen"]
+    reads = [s_ for s_ in sites if s_[0] == "H5Aread"]
     out = {}
-    for i, o in enumerate(opens):
-        name = o.args[1].strval()
-        nxt = opens[i + 1].begin if i + 1 < len(opens) else 10 ** 12
-        rd = [x for x in reads if o.begin < x.begin < nxt]
+    conds = sorted([n for n in g.nodes if n.kind == "cond" and n.ast is not None], key=lambda x: x.ast.begin)
+    for i, (prim, oargs, o, helper) in enumerate(opens):
+        name = oargs[1].strval()
+        if name is None:
+            raise AnalysisError("%s: attribute name of H5Aopen at line %s is not a string literal" % (fn.name, o.line))
+        nxt = opens[i + 1][2].begin if i + 1 < len(opens) else 10 ** 12
+        rd = [x for x in reads if (x[2] is o if helper is not None else (o.begin < x[2].begin < nxt and x[3] is None))]
         if not rd:
             out[name] = (None, None, o, False, False)
             continue
-        rd = rd[0]
-        tgt = rd.args[2].strip(casts=True)
+        rprim, rargs, rsite, rhelper = rd[0]
+        tgt = rargs[2].strip(casts=True)
         tv = tgt.children[0].path() if tgt.kind == "UnaryOperator" and tgt.opcode == "&" else tgt.path()
-        # the comparison: first cond node after the read that reads tv
         cmp_node = None
         missing_node = None
-        for n in sorted(g.nodes, key=lambda x: (x.ast.begin if x.ast is not None else -1)):
-            if n.kind != "cond" or n.ast is None:
-                continue
-            if o.begin < n.ast.begin < rd.begin and missing_node is None:
+        for n in conds:
+            if helper is None:
+                if o.begin < n.ast.begin < rsite.begin and missing_node is None:
+                    missing_node = n
+            elif n.ast.begin <= o.begin and o.end <= n.ast.end and missing_node is None:
                 missing_node = n
-            if rd.begin < n.ast.begin < nxt and clib._reads(n.ast, tv) and cmp_node is None:
+            if rsite.end < n.ast.begin < nxt and clib._reads(n.ast, tv) and cmp_node is None:
                 cmp_node = n
+
         def rejects(n, lab):
             if n is None:
                 return False
             starts = [b for b, l in g.succ[n.id] if l == lab]
             reach = g.reach(starts)
             rets = [x for x in g.nodes if x.kind == "return" and x.id in reach]
-            nxt_open = [x.id for x in g.nodes if x.ast is not None and x.ast.calls(("H5Aopen", "H5Fclose")) and x.ast.begin > n.ast.begin]
-            # the branch must return non-zero before reaching the next attribute
+            nxt_open = [x.id for x in g.nodes if x.ast is not None and (x.ast.calls(("H5Aopen", "H5Fclose")) or any(
+                c.callee in [h.name for _, _, _, h in opens if h is not None] for c in x.ast.calls())) and x.ast.begin > n.ast.begin]
             direct = g.reach(starts, avoid=[x.id for x in rets])
             return bool(rets) and all((x.ast.children[0].intval() or 0) != 0 for x in rets if x.id in g.reach(starts, avoid=nxt_open)) \
                 and not any(x in direct for x in nxt_open)
@@ -109,8 +143,22 @@ def compared_attrs(fn):
                 other = e.children[1] if e.children[0].path() == tv else e.children[0]
                 canon = _canon_src(fn, other, cmp_node.ast)
                 mism_ok = rejects(cmp_node, "T" if e.opcode == "!=" else "F")
-        miss_ok = rejects(missing_node, "T") if missing_node is not None else False
-        out[name] = (re.sub(r"\s", "", rd.args[1].nsrc), canon, o, miss_ok, mism_ok)
+        if helper is None:
+            miss_ok = rejects(missing_node, "T") if missing_node is not None else False
+        else:
+            e = missing_node.ast.strip() if missing_node is not None else None
+            lab = None
+            if e is not None:
+                if e.kind == "CallExpr":
+                    lab = "T"
+                elif e.kind == "BinaryOperator" and e.opcode == "!=" and e.children[1].intval() == 0:
+                    lab = "T"
+                elif e.kind == "BinaryOperator" and e.opcode == "==" and e.children[1].intval() == 0:
+                    lab = "F"
+                elif e.kind == "BinaryOperator" and e.opcode == "<" and e.children[1].intval() == 0:
+                    lab = "T"
+            miss_ok = lab is not None and _helper_rejects_missing(helper) and rejects(missing_node, lab)
+        out[name] = (re.sub(r"\s", "", rargs[1].nsrc), canon, o, miss_ok, mism_ok)
     return out
 
 
@@ -377,37 +425,45 @@ def r5_index_passes_agree(repo=None):
     if len(loops) != 2:
         raise AnalysisError("digital_rf_create_rf_data_index: expected 2 loops over the block description, found %d" % len(loops))
 
-    def conds_guarding(loop, pred):
-        out = []
-        for n in loop.walk():
-            if pred(n):
-                cs = []
-                for a in n.ancestors():
-                    if a is loop:
-                        break
-                    if a.kind == "IfStmt":
-                        inthen = a.children[1].begin <= n.begin <= a.children[1].end
-                        cs.append(("" if inthen else "!") + re.sub(r"\s", "", a.children[0].nsrc))
-                out.append(tuple(reversed(cs)))
-        return sorted(out)
+    def increments(loop):
+        """{variable: [increment nodes]} for local counters incremented in the loop body (not the loop's own counter)"""
+        body = loop.children[-1]
+        out = {}
+        for n in body.walk():
+            v = None
+            if n.kind == "UnaryOperator" and n.opcode in ("++",) and n.children[0].path():
+                v = n.children[0].path()
+            elif n.kind == "CompoundAssignOperator" and n.opcode == "+=" and n.children[1].intval() == 1 and n.children[0].path():
+                v = n.children[0].path()
+            if v and "->" not in v and "[" not in v and "*" not in v:
+                out.setdefault(v, []).append(n)
+        return out
 
-    count = conds_guarding(loops[0], lambda n: n.kind == "UnaryOperator" and n.opcode == "++" and n.children[0].path() == "row_count")
-    fill = conds_guarding(loops[1], lambda n: n.kind == "UnaryOperator" and n.opcode == "++" and n.children[0].path() == "rows_written")
-    # normalise the first-row condition: `i == 0 && (X)` in the fill pass vs `else-of (i > 0)` + X in the count pass
-    def canon(cs):
-        out = []
-        for c in cs:
-            c2 = tuple(x.replace("i==0&&(", "!i>0&&(").replace("!i>0&&(", "FIRST&&(") for x in c)
-            c2 = tuple("FIRST" if x in ("!i>0",) else x for x in c2)
-            flat = "&&".join(c2).replace("FIRST&&(", "FIRST&&").rstrip(")") if any("FIRST" in x for x in c2) else "&&".join(c2)
-            out.append(flat.replace("(", "").replace(")", ""))
-        return sorted(out)
-    a, b = canon(count), canon(fill)
-    if len(count) == 2 and len(fill) == 2 and a == b:
+    inc1, inc2 = increments(loops[0]), increments(loops[1])
+    if len(inc1) != 1 or len(inc2) != 1:
+        raise AnalysisError("digital_rf_create_rf_data_index: row counters not recognised (count pass %s, fill pass %s)" % (
+            sorted(inc1), sorted(inc2)))
+    (v1, n1), (v2, n2) = list(inc1.items())[0], list(inc2.items())[0]
+    f1 = cbool.disj([cbool.path_condition(n, loops[0]) for n in n1])
+    f2 = cbool.disj([cbool.path_condition(n, loops[1]) for n in n2])
+    same, wit = cbool.equivalent(f1, f2)
+    # the increments of one pass must be mutually exclusive (one row per block at most), else counts differ from the predicate
+    def exclusive(ns, loop):
+        fs = [cbool.path_condition(n, loop) for n in ns]
+        for i in range(len(fs)):
+            for j in range(i + 1, len(fs)):
+                eq, _ = cbool.equivalent(("and", fs[i], fs[j]), ("false",))
+                if not eq:
+                    return False
+        return True
+    if same and exclusive(n1, loops[0]) and exclusive(n2, loops[1]):
         r.ok("%s:%s/%s digital_rf_create_rf_data_index" % (LIB, loops[0].line, loops[1].line),
-             "both passes add a row under the same two predicates: %s" % a)
+             "both passes add a row under equivalent predicates (truth table over %d atoms): %s" % (
+                 len(cbool.atoms(f1) | cbool.atoms(f2)), cbool.show(f1)))
     else:
-        r.violation(LIB, fn.name, "count pass %s vs fill pass %s" % (a, b), "the number of index rows allocated and the number of rows "
+        r.violation(LIB, fn.name, "count pass `%s` vs fill pass `%s`%s" % (cbool.show(f1), cbool.show(f2),
+                    (" differ for " + ", ".join("%s=%d" % (k, v) for k, v in sorted(wit.items()))) if wit else " (rows not exclusive)"),
+                    "the number of index rows allocated and the number of rows "
                     "filled are decided by different predicates: rows are missing, uninitialised or written past the allocation",
                     line=loops[1].line)
     r.guard(1)
